@@ -43,6 +43,74 @@ theorem log2_eq_of (n k : Nat) (h1 : 2 ^ k ≤ n) (h2 : n < 2 ^ (k + 1)) : Nat.l
     omega
   omega
 
+/-! ### the machine-word code equals a formula over naturals -/
+
+/-- `value |= value >> s` for every `s`, over naturals -/
+def smear (shifts : List Nat) (v : Nat) : Nat := shifts.foldl (fun x s => x ||| (x >>> s)) v
+
+/-- `log2db64` with every `UInt64` operation replaced by its meaning on naturals -/
+def log2nat64 (value : Nat) : Nat :=
+  tab64.getD (w64 ((smear Extracted.log2Smear64 (w64 value) - (smear Extracted.log2Smear64 (w64 value) >>> 1))
+    * Extracted.log2Mul64) >>> Extracted.log2Shift64) 0
+
+def log2nat32 (value : Nat) : Nat :=
+  tab32.getD (w32 (smear Extracted.log2Smear32 (w32 value) * Extracted.log2Mul32) >>> Extracted.log2Shift32) 0
+
+theorem smearU64_toNat (shifts : List Nat) (hs : ∀ s ∈ shifts, s < 64) (v : UInt64) :
+    (smearU64 shifts v).toNat = smear shifts v.toNat := by
+  induction shifts generalizing v with
+  | nil => rfl
+  | cons s ss ih =>
+    have h1 : s < 64 := hs s (by simp)
+    show (smearU64 ss (v ||| (v >>> UInt64.ofNat s))).toNat = smear ss (v.toNat ||| (v.toNat >>> s))
+    rw [ih (fun x hx => hs x (by simp [hx]))]
+    congr 1
+    rw [UInt64.toNat_or, UInt64.toNat_shiftRight]
+    have : (UInt64.ofNat s).toNat % 64 = s := by
+      rw [UInt64.toNat_ofNat']
+      omega
+    rw [this]
+
+theorem smearU32_toNat (shifts : List Nat) (hs : ∀ s ∈ shifts, s < 32) (v : UInt32) :
+    (smearU32 shifts v).toNat = smear shifts v.toNat := by
+  induction shifts generalizing v with
+  | nil => rfl
+  | cons s ss ih =>
+    have h1 : s < 32 := hs s (by simp)
+    show (smearU32 ss (v ||| (v >>> UInt32.ofNat s))).toNat = smear ss (v.toNat ||| (v.toNat >>> s))
+    rw [ih (fun x hx => hs x (by simp [hx]))]
+    congr 1
+    rw [UInt32.toNat_or, UInt32.toNat_shiftRight]
+    have : (UInt32.ofNat s).toNat % 32 = s := by
+      rw [UInt32.toNat_ofNat']
+      omega
+    rw [this]
+
+theorem log2db64_eq_nat (value : Nat) : log2db64 value = log2nat64 value := by
+  unfold log2db64 log2nat64
+  congr 1
+  have hsh : ∀ s ∈ Extracted.log2Smear64, s < 64 := by decide
+  generalize hS : smearU64 Extracted.log2Smear64 (UInt64.ofNat value) = S
+  have hSn : S.toNat = smear Extracted.log2Smear64 (w64 value) := by
+    rw [← hS, smearU64_toNat _ hsh, UInt64.toNat_ofNat', w64_eq]
+  have h1 : (S >>> 1).toNat = S.toNat >>> 1 := by
+    rw [UInt64.toNat_shiftRight]; rfl
+  have hle : S >>> 1 ≤ S := by
+    rw [UInt64.le_iff_toNat_le, h1]; exact Nat.shiftRight_le _ _
+  rw [UInt64.toNat_shiftRight, UInt64.toNat_mul, UInt64.toNat_sub_of_le _ _ hle, h1, hSn, w64_eq, w64_eq]
+  have hm : (UInt64.ofNat Extracted.log2Mul64).toNat = Extracted.log2Mul64 := by decide
+  have hs : (UInt64.ofNat Extracted.log2Shift64).toNat % 64 = Extracted.log2Shift64 := by decide
+  rw [hm, hs]
+
+theorem log2db32_eq_nat (value : Nat) : log2db32 value = log2nat32 value := by
+  unfold log2db32 log2nat32
+  congr 1
+  have hsh : ∀ s ∈ Extracted.log2Smear32, s < 32 := by decide
+  rw [UInt32.toNat_shiftRight, UInt32.toNat_mul, smearU32_toNat _ hsh, UInt32.toNat_ofNat', w32_eq, w32_eq]
+  have hm : (UInt32.ofNat Extracted.log2Mul32).toNat = Extracted.log2Mul32 := by decide
+  have hs : (UInt32.ofNat Extracted.log2Shift32).toNat % 32 = Extracted.log2Shift32 := by decide
+  rw [hm, hs]
+
 /-- bit `i` of `x` is set iff one of the `w` bits `i … i+w-1` of `v` is set -/
 def Win (v x w : Nat) : Prop := ∀ i, x.testBit i = true ↔ ∃ j, j < w ∧ v.testBit (i + j) = true
 
@@ -127,7 +195,8 @@ theorem tab32_rows : ∀ k, k < 32 →
 
 /-- **de Bruijn `Log2`, 8-byte variant**: `pvLog2(v) = ⌊log2 v⌋` for every `0 < v < 2^64` -/
 theorem log2db64_eq (v : Nat) (hv0 : v ≠ 0) (hv : v < 2 ^ 64) : log2db64 v = Nat.log2 v := by
-  unfold log2db64
+  rw [log2db64_eq_nat]
+  unfold log2nat64
   rw [w64_of_lt hv, smear64_eq v hv0 hv]
   have hk : Nat.log2 v < 64 := (Nat.log2_lt hv0).mpr hv
   have e : 2 ^ (Nat.log2 v + 1) - 1 - ((2 ^ (Nat.log2 v + 1) - 1) >>> 1) = 2 ^ Nat.log2 v := by
@@ -139,7 +208,8 @@ theorem log2db64_eq (v : Nat) (hv0 : v ≠ 0) (hv : v < 2 ^ 64) : log2db64 v = N
 
 /-- **de Bruijn `Log2`, 4-byte variant**: `pvLog2(v) = ⌊log2 v⌋` for every `0 < v < 2^32` -/
 theorem log2db32_eq (v : Nat) (hv0 : v ≠ 0) (hv : v < 2 ^ 32) : log2db32 v = Nat.log2 v := by
-  unfold log2db32
+  rw [log2db32_eq_nat]
+  unfold log2nat32
   rw [w32_of_lt hv, smear32_eq v hv0 hv]
   have hk : Nat.log2 v < 32 := (Nat.log2_lt hv0).mpr hv
   exact tab32_rows _ hk
